@@ -14,7 +14,7 @@ def run(c):
         return c.finish()
     n = 700 if c.tier == "quick" else 12000
     d = os.path.join(c.outdir, "jsoracle")
-    res, err = vcheck.run_tool("jsoracle", ["-seed", c.seed, "-tier", c.tier, "-n", n], d)
+    res, err = vcheck.run_tool("jsoracle", ["-seed", c.seed, "-tier", c.tier, "-n", n, "-cases", "rename"], d)
     if res is None:
         c.broken.append("harness: " + err)
     else:
